@@ -270,6 +270,10 @@ class SimpleTypeChecker(walkers.DagWalker):
         #pylint: disable=unused-argument
         assert formula is not None
         assert len(args) == 1
+        for v in formula.quantifier_vars():
+            # Only (non-function) symbols can be quantified
+            if not v.is_symbol() or v.symbol_type().is_function_type():
+                return None
         if args[0] == BOOL:
             return BOOL
         return None
